@@ -392,8 +392,30 @@ type vRangeMut struct {
 	Start, End int
 }
 
+// vUnrelatedRoots: two 32-byte roots that belong to no block and no header range of any run.
+var vUnrelatedRoots = func() [][]byte {
+	a := sha256.Sum256([]byte("verif-unrelated-root-1"))
+	b := sha256.Sum256([]byte("verif-unrelated-root-2"))
+	return [][]byte{a[:], b[:]}
+}()
+
+// vWrapSpans: (StartRow, EndRow) pairs whose uint32 difference EndRow-StartRow+1 wraps to want rows
+// although the span is inverted or covers the whole index space.
+func vWrapSpans(want uint32) [][2]uint32 {
+	max := ^uint32(0)
+	return [][2]uint32{
+		{1, want},           // start > end by one (want == 0), or a plain shifted span
+		{max, want - 2},     // MaxUint32 .. want-2 : wraps to want
+		{max - 1, want - 3}, // the same one lower
+		{5, 4 + want},       // inverted by one at another offset (want == 0)
+		{0, want - 1},       // want == 0: 0 .. MaxUint32, difference+1 wraps to 0
+	}
+}
+
 func vRangeMuts(start, end int) []vRangeMut {
 	return []vRangeMut{
+		{"start-past-end-by-one", end + 1, end}, {"max-int32-end", start, 1<<31 - 1}, {"min-int32-start", -(1 << 31), end},
+		{"negative-both", -2, -1},
 		{"start-1", start - 1, end}, {"start+1", start + 1, end}, {"end-1", start, end - 1}, {"end+1", start, end + 1},
 		{"shift+1", start + 1, end + 1}, {"shift-1", start - 1, end - 1}, {"empty-range", start, start}, {"inverted", end, start},
 		{"negative-start", -1, end}, {"far-end", start, 1 << 12}, {"zero-zero", 0, 0},
